@@ -244,6 +244,18 @@ class R:
     def same(self, o: "R") -> bool:
         return (self.n * o.d) == (o.n * self.d)
 
+    def approx_same(self, o: "R", tol: float = 1e-9) -> bool:
+        """equality up to relative tolerance of the coefficients (float-derived constants)"""
+        a, b = self.n * o.d, o.n * self.d
+        if a == b:
+            return True
+        keys = set(a.t) | set(b.t)
+        scale = max([abs(float(c)) for c in list(a.t.values()) + list(b.t.values())] + [1e-300])
+        for k in keys:
+            if abs(float(a.t.get(k, 0)) - float(b.t.get(k, 0))) > tol * scale:
+                return False
+        return True
+
     def __eq__(self, o):
         return isinstance(o, R) and self.same(o)
 
